@@ -32,6 +32,17 @@ def rnd_e(rng):
     return [rng.uniform(-3.1, 3.1), ry, rng.uniform(-3.1, 3.1)]
 
 
+# translator tie: align3/rotations.rs to_wpr (the Euler extraction with its two gimbal branches) is regenerated on every run and proved
+# (by conversion) to be the model's to_wpr at the source's EPSILON
+SPECS = [dict(rust="src/geom3/align3/rotations.rs", gen="Rotations", model="Model.AlignParams", types="Model.Types Model.AlignParams", fns=[],
+              type_map={"Matrix3<f64>": "(@M3 N)"},
+              stmts={"to_wpr": "forall (N : EG.Num.Num.Num) m, @{G}.to_wpr N m = @{M}.to_wpr N (@EG.Num.Num.nlit N 1%Z (-15)%Z) m"})]
+
+
+def translate():
+    return C.translator_tie(SPECS)
+
+
 def gen_rc2(rng):
     s = rng.choice([1.0, 10.0, 1000.0])
     sets = []
